@@ -374,3 +374,8 @@ def contracts(tier):
 
 
 LEVEL = "proof"
+EXPLANATION = ("Unbounded inductive proofs for the real RawHeaderPacketReceiver (acceptance iff CRC-5/CRC-16 valid and sequence expected) and "
+               "the real HeaderPacketReceiver with its real LinkCommandGenerator (buffering exactly-once/in-order by a symbolic witness header, "
+               "LGOOD numbering, LBAD/ignore-until-retry, LCRD order and the credit bound), the raw receiver being used through its contract.")
+ASSUMPTIONS = ["link stays in U0 (enable=1, usb_reset=0)", "partner sends headers only while holding a credit and keeps <= 4 unacknowledged",
+               "partner sends LRTY only after our LBAD; link-command and header reports never coincide", "CRC unit contract (C30)"]
